@@ -5,11 +5,14 @@
    RIO.RxLaws (the laws), RIO.RxTreeInst (tree instance), RIO.Rx{TreeC,PathProofs,MatchersProofs,HostProofs,
    RouterProofs} (mechanical copies of the router proofs for the strengthened shapes).
 
-   RESULT (prefix.rs as repaired in 9944bb4: class-aware scanner).  [engine_dotstar rx_is_match] holds.
-   [engine_prefix_law rx_is_match] is still FALSE, for two exotic reasons: the parser of RIO.Rx accepts any
-   characters as the name of a \p{..} escape (model artefact: the regex crate rejects them) and, like the regex
-   crate, takes an unescaped open bracket as the END of a class range (the scanner sees a nested class).
-   The witnesses of the first round (parentheses inside ordinary bracket classes) are gone.  The law holds exactly as stated once every token of the
+   RESULT (prefix.rs as repaired in 4f24679: class-aware scanner, range ends included).  [engine_dotstar rx_is_match]
+   holds.  [engine_prefix_law rx_is_match], for ALL token lists the scanner accepts, is FALSE for one remaining reason,
+   a MODEL ARTEFACT: the parser of RIO.Rx accepts any characters as the name of a \p{..} escape (the regex crate
+   rejects them), and the scanner counts the parentheses inside such a name.  The witnesses found on the way were REAL:
+   the first refutation (a parenthesis inside a bracket class) and the second (an open bracket that ends a class range)
+   are the defect of the crate repaired by 4f24679 (corpus/C08/witness_paren_in_class.json, witness_range_end_bracket.json);
+   both are gone (rx_old_witnesses_gone, range_end_bracket_fixed, fixed_cut_in_class).
+   The law holds exactly as stated once every token of the
    pattern parses in isolation ([tok_parses], executable); this strengthens ONE hypothesis of the theorems:
    the shape of dynamic patterns, [shape_c re]  ~>  [shape_x re]  (= shape_c + forallb tok_parses). *)
 Require Import RIO.Base RIO.Prefix RIO.Route RIO.Layer RIO.Tree RIO.TreeProofs RIO.TreeInst RIO.TreeReplace RIO.Matchers RIO.MatcherSpec
